@@ -26,7 +26,16 @@ def run(tier, seed):
             continue
         fn = d.DISTANCES[nm]
         dom, claims = ax[nm]
-        f = lambda a, b: float(fn(np.array(a, dtype=float), np.array(b, dtype=float)))
+        # vectors live in persistent float64 arrays that are reused across calls, as a caller's would be: a metric that leaves
+        # traces in its arguments then violates the axioms it is checked for (the reference values use the pristine lists)
+        _arr = {}
+
+        def A(v):
+            k_ = tuple(v)
+            if k_ not in _arr:
+                _arr[k_] = np.array(v, dtype=float)
+            return _arr[k_]
+        f = lambda a, b: float(fn(A(a), A(b)))
         first = {}
 
         def bad(clause, info):
@@ -56,7 +65,7 @@ def run(tier, seed):
                     bad("negative_dissimilarity", {"x": x, "y": y, "d_xy": dxy})
             for v in vs:
                 try:
-                    dvv = f(v, list(v))
+                    dvv = float(fn(A(v), np.array(v, dtype=float)))
                 except Exception as ex:
                     bad("metric_raised_on_in_domain_vectors", {"x": v, "y": v, "exception": type(ex).__name__})
                     continue
